@@ -57,6 +57,7 @@ class Run:
             self.h = cfgs.Harness(cfg, faults=True)
             self.faults = self.h.faults
             self.ex = self.h.pfi() if self.cls == 'pfi' else self.h.sage()
+            self.h.prefill(self.ex)
             self.ref = refx.PfiRef(cfg) if self.cls == 'pfi' else refx.SageRef(cfg)
             self.imputer = self.h.imputer
             self.storage = self.h.storage
